@@ -253,11 +253,30 @@ def g_validate(repo):
     g.type(V, 'Type')
     g.type(V, 'OutputFormatType')
     g.type(V, 'RuleFileInfo', derive=None)
+    g.type(V, 'DataFile', derive=None)
+    g.raw('spec_validate.rs')
     for c in ('FAILURE_STATUS_CODE', 'SUCCESS_STATUS_CODE', 'ERROR_STATUS_CODE'):
         g.const(CMD + 'mod.rs', c)
     g.fn(None, V, 'parse_rules', spec='parse_rules.spec', stub=True)
     g.fn(None, V, 'evaluate_against_data_input', spec='evaluate_against_data_input.spec', stub=True)
     g.fn('U-evalrule', V, 'evaluate_rule', spec='evaluate_rule.spec', props=['C06', 'C08'])
+    return g
+
+
+def g_validate_data(repo):
+    """C06: evaluate_against_data_input proved against the contract that U-evalrule (group validate) assumes"""
+    g = GroupBuild('validate_data', repo)
+    g.raw('prelude_common.rs')
+    g.raw('prelude_validate.rs')
+    V = CMD + 'validate.rs'
+    g.type(RULES + 'errors.rs', 'Error', derive=None, opaque_payloads='ExtError')
+    g.type(RULES + 'mod.rs', 'Status')
+    g.type(V, 'Type')
+    g.type(V, 'OutputFormatType')
+    g.type(V, 'DataFile', derive=None)
+    g.raw('spec_validate.rs')
+    g.raw('prelude_validate_data.rs')
+    g.fn('U-evaldata', V, 'evaluate_against_data_input', spec='evaluate_against_data_input.spec+evaluate_against_data_input_proof.spec', props=['C06', 'C08'])
     return g
 
 
@@ -346,4 +365,4 @@ def g_tables(repo):
     return g
 
 
-GROUPS = {'memo': g_memo, 'memo_block': g_memo_block, 'compare': g_compare, 'tables': g_tables, 'index2': g_index2, 'index': g_index, 'tracker': g_tracker, 'validate': g_validate, 'eval_blocks': g_eval_blocks, 'report': g_report, 'merge': g_merge, 'status': g_status, 'exit': g_exit, 'eval': g_eval, 'eval_disp': g_eval_disp}
+GROUPS = {'validate_data': g_validate_data, 'memo': g_memo, 'memo_block': g_memo_block, 'compare': g_compare, 'tables': g_tables, 'index2': g_index2, 'index': g_index, 'tracker': g_tracker, 'validate': g_validate, 'eval_blocks': g_eval_blocks, 'report': g_report, 'merge': g_merge, 'status': g_status, 'exit': g_exit, 'eval': g_eval, 'eval_disp': g_eval_disp}
